@@ -167,6 +167,15 @@ Check (C16_compose_quorum_honest :
     find_quorum q es = Some qr /\ In (OTrack q targets) outs /\ NoDup S /\
     clamp qr (N.of_nat (length targets)) <= N.of_nat (length S) /\
     (forall p, In p S -> In (q, p) (put_sends (wc_g wc) (st0 m) es) /\ In p targets)).
+Check (C16_closed_while_outstanding :
+  forall g m es p,
+  1 <= g_alpha g ->
+  let s := fst (run g (st0 m) es) in
+  aget p (conn s) <> None ->
+  let s' := fst (fst (step g s (EClosed p))) in
+  aget p (peers s') = None /\ futs s' = futs s /\ pdial s' = pdial s /\
+  forall q x, aget q (eng s') = Some x -> In p (waiting x) ->
+    owes_dial s' (negb (is_track x)) q p \/ owes_fut s' (negb (is_track x)) q p).
 Check (C16_default_config :
   1 <= V.gen.Consts.PARALLELISM_FACTOR /\ 0 < V.gen.Consts.KAD_READ_TIMEOUT_SECS /\
   0 < V.gen.Consts.KAD_WRITE_TIMEOUT_SECS).
